@@ -12,7 +12,8 @@
 
   Numbers are inputs: the harness sends every scalar that Python's `float()` accepts
   (int, float, numeric string such as `2500.9e3`) as the double `float()` returns
-  (YAML parsing and `float(str)` are trusted), every other string as a string.
+  (YAML parsing and `float(str)` are trusted; a numeric string also keeps its text),
+  every other string as a string.
 -/
 import SnowModel.Num
 
@@ -20,7 +21,8 @@ namespace Snow
 
 /-- a YAML scalar as the model sees it -/
 inductive Val (α : Type) where
-  | num : α → Val α          -- anything `float()` converts (int, float, numeric string, bool)
+  | num : α → Val α          -- a YAML int / float / bool: `float()` converts it, it is not a `str`
+  | nstr : α → String → Val α -- a string that `float()` accepts (`2500.9e3`, `1e-3`): its value and its text
   | str : String → Val α     -- a string `float()` rejects
   | null : Val α             -- YAML `~` / empty value (Python `None`)
   deriving Repr
@@ -146,6 +148,7 @@ def itemPath : Cfg α → List String → Except String (Cfg α)
 /-- `float(x)` -/
 def pyFloat : Cfg α → Except String α
   | .leaf (.num x) => .ok x
+  | .leaf (.nstr x _) => .ok x
   | .leaf (.str _) => .error "ValueError"   -- could not convert string to float
   | .leaf .null => .error "TypeError"
   | .node _ => .error "TypeError"
@@ -158,11 +161,13 @@ def notAString : String := "\x00<not a string>"
 /-- `str(x)` (total) -/
 def pyStr : Cfg α → String
   | .leaf (.str s) => s
+  | .leaf (.nstr _ s) => s
   | _ => notAString
 
 /-- a value used as a string without conversion (`x.startswith(…)`) -/
 def rawStr : Cfg α → Except String String
   | .leaf (.str s) => .ok s
+  | .leaf (.nstr _ s) => .ok s
   | _ => .error "AttributeError"
 
 /-- `float(config[p0][p1]…)` -/
